@@ -64,7 +64,8 @@ func runURNOps(o *hx.Opts, r *hx.Rand, res *hx.Result, em *emitter) {
 		}
 		var cand urns.URN
 		var ch *flows.Channel
-		opCoq := ""
+		// rendered right before each em.add: the cases file (and its string table) may change between two adds
+		var opCoq func() string
 		switch kind {
 		case "add-fresh", "remove-fresh":
 			cand = urns.URN("telegram:" + digits(rr, 9))
@@ -75,17 +76,17 @@ func runURNOps(o *hx.Opts, r *hx.Rand, res *hx.Result, em *emitter) {
 		case "prefer":
 			c := hx.Pick(rr, chanVariants[variant].chans)
 			ch = sa.Channels().Get(assets.ChannelUUID(c.UUID))
-			opCoq = "UPrefer (Some " + c.coq() + ")"
+			opCoq = func() string { return "UPrefer (Some " + c.coq() + ")" }
 		case "prefer-none":
-			opCoq = "UPrefer None"
+			opCoq = func() string { return "UPrefer None" }
 		}
 		if cand != "" {
 			cand = cand.Normalize()
 			m := snapURN(cand, nil)
 			if kind[:3] == "add" {
-				opCoq = "UAdd " + m.coq()
+				opCoq = func() string { return "UAdd " + m.coq() }
 			} else {
-				opCoq = "URemove " + m.coq()
+				opCoq = func() string { return "URemove " + m.coq() }
 			}
 		}
 		var shapes [2]string
@@ -93,7 +94,7 @@ func runURNOps(o *hx.Opts, r *hx.Rand, res *hx.Result, em *emitter) {
 		heldBefore := [2]bool{}
 		for side := 0; side < 2; side++ {
 			c := readQueryContact(sa, tc, side)
-			before := urnsOfContact(c)
+			beforeURNs := readQueryContact(sa, tc, side)
 			if cand != "" {
 				heldBefore[side] = c.HasURN(cand)
 			}
@@ -107,7 +108,7 @@ func runURNOps(o *hx.Opts, r *hx.Rand, res *hx.Result, em *emitter) {
 			}
 			after, shape := triplesOf(c)
 			shapes[side], lens[side] = shape, len(c.URNs())
-			em.add(fmt.Sprintf("COp {| o_op := %s; o_before := %s; o_after := [%s] |}", opCoq, before, joinStrs(after)),
+			em.add(fmt.Sprintf("COp {| o_op := %s; o_before := %s; o_after := [%s] |}", opCoq(), urnsOfContact(beforeURNs), joinStrs(after)),
 				map[string]any{"kind": "urn-op", "op": kind, "candidate": string(cand), "contacts": tc, "side": side}, map[string]any{"after": shape})
 			res.Dist("corr=urn-op")
 		}
